@@ -1,13 +1,14 @@
 import Proofs.Linear
+import Proofs.Outer
 import Proofs.Ring
 import Model.Transform
 
 /-! # C11 — linear transformations: function/rotor matrices, adjoint, composition
 
 `LinearMatrix` is a matrix acting on coefficient vectors by left multiplication (`matrix @ mv.value`).
-The outermorphism construction `_make_outermorphism` is modelled executably in `Model/Transform.lean`
-and compared with the implementation; its algebraic laws (`f(A∧B) = f(A)∧f(B)`, composition, `f(I) = det m · I`)
-are not yet theorems (see PENDING in the evidence). -/
+The outermorphism: `f i` is the image of the `i`-th source basis vector, `Fprod d f t a` the ordered wedge of the images
+of the set bits of `a` (the same left fold as `_make_outermorphism`), `omap d m f` its linear extension — what
+`OutermorphismMatrix.__call__` computes.  `f(I) = det(m)·I` is not a theorem (evaluated on the implementation). -/
 
 namespace C11
 open Matrix
@@ -38,6 +39,27 @@ theorem from_rotor_linear {N : Nat} {sig : Nat → R} (Rt Rrev : Cl N sig) (dinv
   constructor
   · rw [mul_add, add_mul, smul_add]
   · rw [Cl.mul_smul', Cl.smul_mul', smul_comm]
+
+/-! ### outermorphism laws (any commutative ring, any source / destination dimensions) -/
+
+variable (d : Nat)
+
+/-- `f(A ∧ B) = f(A) ∧ f(B)` for all multivectors -/
+theorem outer_wedge (m' : Nat) (f : Nat → CMV d R) (hf : ∀ i, IsHom d 1 (f i)) (A B : CMV m' R) :
+    omap d m' f (wedge m' A B) = wedge d (omap d m' f A) (omap d m' f B) := omap_wedge d m' f hf A B
+/-- `f(1) = 1` -/
+theorem outer_one (m' : Nat) (f : Nat → CMV d R) : omap d m' f (one m') = one d := omap_one d m' f
+/-- the `i`-th basis vector goes to the `i`-th column of the vector matrix -/
+theorem outer_vector (m' : Nat) (f : Nat → CMV d R) (i : Nat) (hi : i < m') :
+    omap d m' f (blade m' ⟨2 ^ i, Nat.pow_lt_pow_right (by decide) hi⟩) = f i := omap_vector d m' f i hi
+/-- linear -/
+theorem outer_add (m' : Nat) (f : Nat → CMV d R) (A B : CMV m' R) : omap d m' f (A + B) = omap d m' f A + omap d m' f B := omap_add d m' f A B
+theorem outer_smul (m' : Nat) (f : Nat → CMV d R) (q : R) (A : CMV m' R) : omap d m' f (q • A) = q • omap d m' f A := omap_smul d m' f q A
+/-- grade preserving: the image of a basis blade of grade `g` is homogeneous of grade `g` -/
+theorem outer_grade (f : Nat → CMV d R) (hf : ∀ i, IsHom d 1 (f i)) (t a : Nat) : IsHom d (pc t a) (Fprod d f t a) := Fprod_hom d f hf t a
+/-- composition: `f_g ∘ f_f` is the outermorphism of the composed vector map (matrix product `m2 @ m1`) -/
+theorem outer_compose (k' m' e : Nat) (f : Nat → CMV m' R) (g : Nat → CMV e R) (hg : ∀ i, IsHom e 1 (g i)) (A : CMV k' R) :
+    omap e m' g (omap m' k' f A) = omap e k' (fun i => omap e m' g (f i)) A := omap_comp k' m' e f g hg A
 
 /-- non-vacuity: a 2×2 example of the adjoint identity over ℤ -/
 example : (!![1, 2; 3, 4] *ᵥ ![1, 0]) ⬝ᵥ ![0, 1] = ![1, 0] ⬝ᵥ ((!![1, 2; 3, 4] : Matrix (Fin 2) (Fin 2) ℤ)ᵀ *ᵥ ![0, 1]) :=
